@@ -7,12 +7,12 @@ CONSTANTS
   CABad = {"none", "nsig1", "bsig2", "nsigswap", "scid", "chainhash", "wrongchain"}
   CUBad = {"none", "sig", "chainhash"}
   NABad = {"none", "sig"}
-  CUFields = {"ok", "maxltmin"}
+  CUFields = {"ok", "maxltmin", "disabled", "capeq", "capplus1"}
   NAFields = {"ok", "twodns"}
   Funds = {"ok", "noblock", "spent"}
   Signers = {"n1", "n2", "x"}
   MaxMsgs = 4
 VIEW MCView
 INVARIANTS TypeOK NodeHasChannel PolicyHasChannel RelayedAuthentic ZombieNotInGraph ClosedIsZombie StashOnlyUpdates
-PROPERTIES OnlyAuthenticFresh NoRelayWithoutApply PolicyMonotone NodeMonotone ChannelsStay
+PROPERTIES ZombieOnlyByOwner OnlyAuthenticFresh NoRelayWithoutApply PolicyMonotone NodeMonotone ChannelsStay
 CHECK_DEADLOCK FALSE
